@@ -267,11 +267,18 @@ func AddUnbindScenario(t *rapid.T, out []BlockSpec, gen []GenVal, freq int) bool
 	// dadd mode 8 is not needed: MinStakes[house] (100 units) = MinDelegation + N units with N = 100 - MinDeleg is config dependent,
 	// so the amount is given as "Min + N units" with N = 100: total delegated >= MinStakes in every configuration.
 	out[freq-1].Ops = append(out[freq-1].Ops, Op{K: "dadd", A: d, V: v, M: 0, N: 100, P: 2})
-	out[2*freq-1].Ops = append(out[2*freq-1].Ops, Op{K: "vwithdraw", V: v, M: 8, N: rapid.IntRange(0, 19).Draw(t, "unbind-keep"), X: rapid.IntRange(0, NAcct-1).Draw(t, "unbind-rcpt"), P: 2})
+	wblk, ublk := 2*freq-1, 3*freq-1
+	if rapid.IntRange(0, 2).Draw(t, "unbind-same-period") == 0 {
+		// the self-withdrawal and the unbind are pending in the SAME period (the aid record (zero, validator)
+		// then holds the remaining self tokens when the unbind is subtracted from it)
+		wblk = 2*freq + rapid.IntRange(0, freq-2).Draw(t, "unbind-wblk")
+		ublk = wblk + rapid.IntRange(1, 3*freq-1-wblk).Draw(t, "unbind-ublk")
+	}
+	out[wblk].Ops = append(out[wblk].Ops, Op{K: "vwithdraw", V: v, M: 8, N: rapid.IntRange(0, 19).Draw(t, "unbind-keep"), X: rapid.IntRange(0, NAcct-1).Draw(t, "unbind-rcpt"), P: 2})
 	sub := Op{K: "dsub", A: d, V: v, M: 1, P: 2}
 	if rapid.Bool().Draw(t, "unbind-partial") {
 		sub.M, sub.N = 0, 94 // 95 units: the rest stays delegated (>= MinDelegation where that is <= 5+Min.. otherwise forced full)
 	}
-	out[3*freq-1].Ops = append(out[3*freq-1].Ops, sub)
+	out[ublk].Ops = append(out[ublk].Ops, sub)
 	return true
 }
